@@ -1,7 +1,6 @@
 package main
 
 import (
-	"bufio"
 	"context"
 	"encoding/json"
 	"errors"
@@ -12,6 +11,7 @@ import (
 	"github.com/hprose/hprose-golang/v3/io"
 	"github.com/hprose/hprose-golang/v3/rpc/core"
 	"github.com/hprose/hprose-golang/v3/rpc/plugins/circuitbreaker"
+	"hv/hvlib"
 )
 
 // C20: drive the real CircuitBreaker plugin, installed with Client.Use, with a
@@ -38,10 +38,10 @@ type c20Obs struct {
 	Calls []c20Call `json:"calls"`
 }
 
-func c20Run(in *bufio.Scanner, out *json.Encoder) error {
-	for in.Scan() {
+func c20Run(line []byte, out *json.Encoder) error {
+	{
 		var c c20Case
-		if err := json.Unmarshal(in.Bytes(), &c); err != nil {
+		if err := json.Unmarshal(line, &c); err != nil {
 			return err
 		}
 		obs := c20Obs{ID: c.ID}
@@ -107,7 +107,7 @@ func c20Run(in *bufio.Scanner, out *json.Encoder) error {
 			return err
 		}
 	}
-	return in.Err()
+	return nil
 }
 
 func isPanicErr(err error) bool {
@@ -115,4 +115,4 @@ func isPanicErr(err error) bool {
 	return ok
 }
 
-func init() { register("c20", c20Run) }
+func main() { hvlib.Main(c20Run) }
